@@ -61,7 +61,7 @@ PROPS = {
         "design_ref": "DESIGN.md section 4 C05, section 9",
     },
     "C06": {
-        "claim": "partial proof: id construction is proved injective for all ids and indices (decimal rendering injective; id.i = id.j => i = j; {id}.i = {id}.j => i = j; an atomic-row id never equals a nested-group id; the registry hands out the next number to a new node and the old id to a known one); that every id mentioned in reference and linkage cells (ranges expanded) denotes a row or group of the same table, and that every nested group is referenced from its parent rows, is decided on the implementation's tables by the resolution oracle and byte-exact model agreement",
+        "claim": "proof: in the table model the Statement ID column of a statement's atomic statements is proved to be id.1 ... id.n (plain id for a single one) for every statement, mode and option - no component, property, annotation or reference cell overwrites it - and these ids are proved pairwise different; nested groups get {id}.k with k injective, a row id never equals a group id, the registry hands out the next number to a new node and the old id to a known one; range compression of references is proved lossless (`decode (build ids) = ids+1`). That every id mentioned in reference and linkage cells denotes a row or group of the same table, that every nested group is referenced and every cell sits in a header column is decided on the implementation's tables by oracles and byte-exact model agreement; one open known finding",
         "note": T_TABULAR,
         "rule": TAB_RULE,
         "assumptions": ["user-supplied statement ids in generated cases consist of letters, digits and dots"],
@@ -82,7 +82,7 @@ PROPS = {
         "design_ref": "DESIGN.md section 4 C08, section 9",
     },
     "C09": {
-        "claim": "partial proof: regenerated facts prove that PrintTree prints every statement field (directly or as property of a printed one) in the model's order, passes the display options through every recursive call unchanged, and prints nested and pair statements one level deeper; that the printed tree contains per component the same operator tree, leaves, shared text, nested statements, properties and annotations as the parsed statement is decided by byte-exact agreement of PrintTree's output with `Vis.visTop` evaluated on the implementation's own parse tree (the model is a structural recursion over the parsed tree that emits one object per value, operator and nested statement)",
+        "claim": "partial proof: for a component tree of any shape and every option set the visual model is proved to emit exactly one value object per leaf, in written order, named by the leaf's text framed by its inherited shared text, labelled with its component and level (`values_shown_are_the_tree_values`); regenerated facts prove that PrintTree prints every statement field (directly or as property of a printed one) in the model's order, passes the display options through every recursive call unchanged, and prints nested and pair statements one level deeper; operators, properties, annotations and nested statements are decided by byte-exact agreement of PrintTree's output with the model evaluated on the implementation's own parse tree",
         "note": T_VISUAL,
         "rule": VIS_RULE,
         "assumptions": [],
@@ -99,7 +99,7 @@ PROPS = {
         "design_ref": "DESIGN.md section 4 C10, section 9",
     },
     "C11": {
-        "claim": "partial proof: the error codes of the documented rules are regenerated from source and proved pairwise different and equal to the codes the judge expects; rejection itself is regex/bracket-matching code outside the model and is decided by correspondence: each rule violation is planted at every applicable site of generated well-formed statements (top level, nested, inside pair groups), both conversions must return that code and no output, well-formed statements must be accepted, and both conversions must agree. Two rule/site combinations are open known findings",
+        "claim": "partial proof: the balance check that runs before parsing is modelled (`Validate.validate`) and proved to accept a text iff it contains as many opening as closing parentheses (braces) - tied to `validateInput` by differential execution on token strings and mutated statements; the error codes of the documented rules are regenerated from source and proved pairwise different and equal to the codes the judge expects; the other rules are regex/bracket-matching code outside the model and are decided by correspondence: each rule violation is planted at every applicable site of generated well-formed statements (top level, nested, inside pair groups), both conversions must return that code and no output, well-formed statements must be accepted, and both conversions must agree. Two rule/site combinations are open known findings",
         "note": T_PARSER,
         "rule": "well-formed ASTs from the grammar generators; for each documented rule a planting function produces the malformed text at each applicable site; expected = (specific error code, empty output) for both ConvertIGScriptToTabularOutput and ConvertIGScriptToVisualTree; plus unplanted well-formed statements expecting acceptance",
         "assumptions": [],
@@ -144,7 +144,7 @@ PROPS = {
         "design_ref": "DESIGN.md section 4 C16, section 9",
     },
     "C17": {
-        "claim": "partial proof: moving activation conditions first is proved a permutation of the printed fields that leaves the order of all others unchanged; annotation members are proved present exactly when selected; invariance of the (component, value, level) entry set under all 32 option sets, exactly-two children in binary mode and collapsing only of directly nested identical operators are decided by reading each output back into entries (oracle) and by byte-exact agreement with the model",
+        "claim": "proof (values and binary mode) + correspondence: the (component, value text, level) entries of a component are proved identical under every combination of display options (`entries_do_not_depend_on_options`); in binary mode every operator is proved to be printed as one object of its own with at most two children and nothing is spliced; moving activation conditions first is proved a permutation of the printed fields that keeps the order of all others; annotation members are proved present exactly when selected; collapsing only of directly nested identical operators, DoV members and the entries of properties / nested statements are decided by reading each of the 32 outputs back (group oracle) and by byte-exact agreement with the model",
         "note": T_VISUAL,
         "rule": VIS_RULE + "; the 32 outputs of one statement form a group whose entry multisets must coincide",
         "assumptions": [],
